@@ -1,6 +1,6 @@
 SPECIFICATION Spec
 CONSTANTS
-  MaxStmts = 4
+  MaxStmts = 3
   MaxDepth = 3
   MaxUnits = 1
   MaxVar = 1
